@@ -184,13 +184,15 @@ func parseScript(s string) (evs []readEv, writeFails bool, preCancel bool) {
 			writeFails = true
 			continue
 		}
-		if t == "pc" && len(evs) == 0 && !preCancel {
+		if (t == "pc" || t == "pcd") && len(evs) == 0 && !preCancel {
 			preCancel = true
 			continue
 		}
 		switch {
 		case t == "t" || t == "c":
 			evs = append(evs, readEv{kind: t})
+		case t == "cd":
+			evs = append(evs, readEv{kind: "c"})
 		case len(t) >= 2 && t[1] == ':':
 			evs = append(evs, readEv{kind: t[:1], data: unhx(t[2:])})
 		default:
@@ -241,18 +243,49 @@ func clientErrStr(err error) string {
 	return "err parse:" + errStr(err)
 }
 
+// scriptedCtx is a caller's context that ends by its DEADLINE at a moment the script chooses
+type scriptedCtx struct {
+	context.Context
+	done chan struct{}
+	mu   sync.Mutex
+	err  error
+}
+
+func (c *scriptedCtx) Done() <-chan struct{} { return c.done }
+func (c *scriptedCtx) Err() error {
+	c.mu.Lock()
+	defer c.mu.Unlock()
+	return c.err
+}
+func (c *scriptedCtx) expire() {
+	c.mu.Lock()
+	defer c.mu.Unlock()
+	if c.err == nil {
+		c.err = context.DeadlineExceeded
+		close(c.done)
+	}
+}
+
 // runDo performs one call; returns outcome, hook log and the reads the transport served
 func runDo(kind string, hooks bool, flusher string, reqSpec string, script string) (string, string, string) {
 	evs, writeFails, preCancel := parseScript(script)
 	ctx, cancel := context.WithCancel(context.Background())
 	defer cancel()
+	if strings.Contains(";"+script+";", ";cd;") || strings.Contains(";"+script+";", ";pcd;") {
+		// the context ends by deadline expiry instead of an explicit cancel
+		sc := &scriptedCtx{Context: context.Background(), done: make(chan struct{})}
+		ctx, cancel = sc, sc.expire
+	}
 	if preCancel {
 		cancel()
 	}
 	conn := &scriptedConn{script: evs, writeFails: writeFails, cancel: cancel, serial: kind == "s"}
 	rec := &hookRec{}
-	notConnected := strings.HasPrefix(reqSpec, "nc:")
-	if notConnected {
+	failedConnect := strings.HasPrefix(reqSpec, "ncf:")
+	notConnected := strings.HasPrefix(reqSpec, "nc:") || failedConnect
+	if failedConnect {
+		reqSpec = reqSpec[4:]
+	} else if notConnected {
 		reqSpec = reqSpec[3:]
 	}
 	var req packet.Request
@@ -325,7 +358,20 @@ func runDo(kind string, hooks bool, flusher string, reqSpec string, script strin
 		} else {
 			c = modbus.NewRTUClientWithConfig(conf)
 		}
-		if !notConnected {
+		if failedConnect {
+			// a Connect that fails although the dial function hands back a connection value: the client stays unconnected
+			failing := conf
+			failing.DialContextFunc = func(ctx context.Context, address string) (net.Conn, error) { return conn, errInjectedIO }
+			if kind == "t" {
+				c = modbus.NewTCPClientWithConfig(failing)
+			} else {
+				c = modbus.NewRTUClientWithConfig(failing)
+			}
+			if cerr := c.Connect(context.Background(), "scripted"); cerr == nil {
+				err = errors.New("connect-did-not-fail")
+				return
+			}
+		} else if !notConnected {
 			if cerr := c.Connect(ctx, "scripted"); cerr != nil {
 				err = cerr
 				return
